@@ -8,6 +8,7 @@ import ScVerif.C08.SubscribeSend
 import ScVerif.C08.SubscribeGc
 import ScVerif.C08.PipeBus
 import ScVerif.C08.Booking
+import ScVerif.C08.GenId
 /-! Driver handler for C08.
 
 Predicates are the closed family shared with the Go harness: `nil` (no include option) or a truth
@@ -70,6 +71,9 @@ masked old/new after include) and `WithUpdatesOnly` (no seed).
                                        `ScVerif/C08/Booking.lean`): message tokens are booked periods `s/e`
                                        (`-` = unbounded side, seconds) or `nil` (no booked period); `<q>` is the
                                        request's `booking_intersects` period or `absent`
+* `genid <none|lower> <cands|-> <taken|->`  `Collection.genID` (`ScVerif/C08/GenId.lean`): the id chosen from the
+                                       candidates the rng yields (comma separated, in order), given the stored ids,
+                                       on a collection without / with the lower-casing id interceptor; `Aborted`
 * `bpullx <q> <u 0|1> <mask> <nBefore> <op>*`  the same with `updates_only` (no seed) and a read mask (`none`, or
                                        `id`: the booked period is stripped, every delivered / listed value reads `nil`;
                                        include still judges the stored period)
@@ -493,6 +497,14 @@ def handle? (toks : List String) : Option String :=
   | "lsched" :: n :: rest => handleLSched? n rest
   | "gsched" :: n :: rest => handleGSched? false n rest
   | "bpull" :: q :: n :: rest => handleBPull? q n rest
+  | ["genid", canon, cs, tk] => do
+    -- `genid <none|lower> <candidates,…|-> <taken ids,…|->`: Collection.genID over the candidates the rng yields
+    let f ← if canon = "none" then some (id : String → String) else if canon = "lower" then some String.toLower else none
+    let cands := if cs = "-" then [] else cs.splitOn ","
+    let taken := if tk = "-" then [] else tk.splitOn ","
+    pure (match genUniqueId f (fun c => c ≠ "") (fun i => taken.contains i) cands with
+      | some i => i
+      | none => "Aborted")
   | "bpullx" :: q :: u :: m :: n :: rest => do
     let uo ← parseFlag? u
     let proj ← bookingMaskProj m
